@@ -5,8 +5,10 @@ package main
 // own the fragment state they keep (twin fed pristine copies is the oracle).
 
 import (
+	"bytes"
 	"encoding/json"
 	"reflect"
+	"sync"
 
 	"github.com/pion/rtp"
 	"github.com/pion/rtp/codecs"
@@ -33,6 +35,7 @@ type c09Feed struct {
 type c09Case struct {
 	Prefill   bool      `json:"prefill"`   // the reused receiver starts as a value the application filled in itself (every field set)
 	ZeroAlloc bool      `json:"zeroalloc"` // every receiver of the case runs in SetZeroAllocation(true) mode
+	Parallel  bool      `json:"parallel"`  // afterwards the same history runs on four more receivers, each in its own goroutine
 	Kind      string    `json:"kind"`
 	Src       string    `json:"src"` // bytes | feed | sweep
 	Items     [][]int   `json:"items"`
@@ -304,6 +307,46 @@ func runC09(raw json.RawMessage, w *Writer) {
 	}
 	twin := mk()
 	var given [][]byte
+	var seqRes []string // what the twin (pristine inputs, never overwritten) returned for every payload
+	var seqOut [][]byte
+	defer func() {
+		// independent receivers used at the same time (one per track, each on its own goroutine) must behave as one
+		// receiver used alone
+		if !c.Parallel || c.Kind == "h265_toggle" || len(seqOut) != len(items) {
+			return
+		}
+		const G = 4
+		bad := make([]bool, G)
+		var wg sync.WaitGroup
+		start := make(chan struct{})
+		for g := 0; g < G; g++ {
+			wg.Add(1)
+			go func(g int) {
+				defer wg.Done()
+				defer func() {
+					if recover() != nil {
+						bad[g] = true
+					}
+				}()
+				d := mk()
+				<-start
+				for k, it := range items {
+					out, err := d.Unmarshal(cloneBytes(it))
+					if outcome("ok", err) != seqRes[k] || (err == nil && !bytes.Equal(out, seqOut[k])) {
+						bad[g] = true
+						return
+					}
+				}
+			}(g)
+		}
+		close(start)
+		wg.Wait()
+		ok := true
+		for _, b := range bad {
+			ok = ok && !b
+		}
+		w.Emit(Ev{"ev": "parallel", "kind": c.Kind, "instances": G, "same_as_alone": ok})
+	}()
 	// a socket-style caller: one receive buffer, refilled for every packet
 	rxbuf := make([]byte, 0, 64)
 	for k, it := range items {
@@ -342,6 +385,7 @@ func runC09(raw json.RawMessage, w *Writer) {
 		// twin: same sequence, pristine copies, never scribbled
 		tr, _ := guard(func() { tout, terr = twin.Unmarshal(cloneBytes(it)) })
 		e["twin_res"], e["twin_out"] = outcome(tr, terr), ints(tout)
+		seqRes, seqOut = append(seqRes, outcome(tr, terr)), append(seqOut, cloneBytes(tout))
 		if perPacket(c.Kind) {
 			f := mk()
 			if c.Kind == "h265_toggle" {
